@@ -11,7 +11,7 @@ ASSUMPTIONS = [
 ]
 
 
-def run(pid, tier, seed, ensure_facts, known, ev_path, rep_path, t0):
+def run(pid, tier, seed, ensure_facts, known, ev_path, rep_path, t0, ensure_mutant_facts=None):
     mod = importlib.import_module('rules.' + pid)
     fdir, hsh, extracted, _log = ensure_facts('default')
     F = core.Facts(fdir)
@@ -48,6 +48,35 @@ def run(pid, tier, seed, ensure_facts, known, ev_path, rep_path, t0):
                 extra = mod.thorough(F, R) or {}
             except core.AnchorMissing as e:
                 R.missing(str(e))
+    if tier == 'thorough' and ensure_mutant_facts is not None:
+        # rule self-test (both-ways test of the machinery): the rules must fire on the registered seeded mutant; the result is
+        # reported in the evidence and never influences the verdict on /repo
+        exp_path = os.path.join(os.path.dirname(os.path.dirname(os.path.abspath(__file__))), 'mutants', 'M1.expect.json')
+        st = {'mutant': 'mutants/M1.diff'}
+        try:
+            expect = json.load(open(exp_path)).get(pid, [])
+            mdir, note = ensure_mutant_facts('M1')
+            st['facts'] = note
+            if mdir is None:
+                st['status'] = note
+            else:
+                Fm = core.Facts(mdir)
+                Rm = core.Report(pid)
+                Rm.tier = tier
+                try:
+                    mod.check(Fm, Rm, tier)
+                except core.AnchorMissing as e:
+                    Rm.missing(str(e))
+                fired = sorted(set(o['key'] for o in Rm.violations()))
+                import re as _re
+                hit = [e for e in expect if any(_re.search(e, k) for k in fired)]
+                st['rules_expected_to_fire'] = expect
+                st['rules_fired_on_mutant'] = fired
+                st['status'] = 'ok' if len(hit) == len(expect) and expect else ('MISSED: %s' % [e for e in expect if e not in hit])
+        except Exception as e:   # never affects the verdict
+            st['status'] = 'selftest-error: %s' % e
+        extra['rule_selftest'] = st
+        print('%s: rule self-test on mutant M1: %s' % (pid, st.get('status')))
     if hasattr(mod, 'witnesses'):
         w = mod.witnesses(R, tier)
         if w:
